@@ -444,6 +444,21 @@ func (e *Exec) invokeModel(st *State, fr *Frame, cc *ssa.CallCommon, recv *Iface
 		d := st.arrayOf(buf.Elem, comp{"", BV(8)}, buf.Arr)
 		n, err := e.writeN(st, recv.Ref, d, buf.Off, buf.Len)
 		return one(st, n, err), true
+	case it == "net.Conn" && cc.Method.Name() == "Write":
+		e.note("trusted: net.Conn.Write contract over a ghost byte stream (the transport accepts bytes in order until it fails)")
+		buf := args[0].(*SliceV)
+		e.connWriteGuard(st, fr, cc, pos)
+		d := st.arrayOf(buf.Elem, comp{"", BV(8)}, buf.Arr)
+		n, err := e.writeN(st, recv.Ref, d, buf.Off, buf.Len)
+		return one(st, n, err), true
+	case it == "net.Conn" && (cc.Method.Name() == "SetWriteDeadline" || cc.Method.Name() == "SetReadDeadline" || cc.Method.Name() == "SetDeadline" || cc.Method.Name() == "Close"):
+		return one(st, freshValue("neterr", cc.Signature().Results().At(0).Type())), true
+	case it == "net.Error" && (cc.Method.Name() == "Temporary" || cc.Method.Name() == "Timeout"):
+		return one(st, Fresh("neterrflag", SBool)), true
+	case it == "net.Error" && cc.Method.Name() == "Error":
+		s := &StrV{Data: App("errtext.data", byteArr, recv.Tid, recv.Ref), Len: App("errtext.len", BV(64), recv.Tid, recv.Ref)}
+		st.AssumeFact(BVUle(s.Len, BVConst(maxLen, 64)))
+		return one(st, s), true
 	case cc.Method.Name() == "Value" && it == "context.Context":
 		return one(st, e.ctxValue(st, recv, args[0].(*IfaceV))), true
 	case cc.Method.Name() == "Error" && it == "error":
@@ -539,4 +554,58 @@ func (e *Exec) readModel(st *State, fr *Frame, recv *IfaceV, buf *SliceV, pos to
 	term := &IfaceV{Tid: r.errT, Ref: r.errR}
 	e.ioerrRecord(st, fail, term)
 	return one(st, n, &IfaceV{Tid: Ite(fail, term.Tid, IntConst(0)), Ref: Ite(fail, term.Ref, IntConst(0))}), true
+}
+
+// connWriteGuard: a transport write through a field declared `shared <field>.Write guarded_by <lockfield>` requires
+// the lock channel of the same object to be held.
+func (e *Exec) connWriteGuard(st *State, fr *Frame, cc *ssa.CallCommon, pos token.Pos) {
+	if e.discovery > 0 || e.specMode > 0 {
+		return
+	}
+	ld, ok := cc.Value.(*ssa.UnOp)
+	if !ok {
+		return
+	}
+	fa, ok := ld.X.(*ssa.FieldAddr)
+	if !ok {
+		return
+	}
+	pv, ok := fr.env[fa].(*PtrV)
+	if !ok || pv.Kind != PObj || len(pv.Path) == 0 {
+		return
+	}
+	sty := fa.X.Type().Underlying().(*types.Pointer).Elem().Underlying().(*types.Struct)
+	fname := sty.Field(fa.Field).Name()
+	for _, sd := range e.specs.shared {
+		if sd.What != fname+".Write" {
+			continue
+		}
+		// the guard field of the same object
+		for i := 0; i < sty.NumFields(); i++ {
+			if sty.Field(i).Name() == sd.Guard {
+				gp := *pv
+				gp.Path = append(append([]int(nil), pv.Path[:len(pv.Path)-1]...), i)
+				ch := st.LoadLoc(e.locOf(&gp)).(*Term)
+				e.oblige(st, fr, "guarded."+sd.Label, pos, e.chanHeld(st, ch))
+			}
+		}
+	}
+}
+
+func init() {
+	models["time.NewTimer"] = func(e *Exec, st *State, fr *Frame, fn *ssa.Function, args []Value, pos token.Pos) []Outcome {
+		t := fn.Signature.Results().At(0).Type().(*types.Pointer).Elem()
+		p := e.alloc(st, t)
+		// the timer's channel is some channel distinct from nil
+		cp := *p
+		cp.Path = []int{0}
+		ch := Fresh("timerC", SInt)
+		st.AssumeFact(Not(Eq(ch, IntConst(0))))
+		st.StoreLoc(e.locOf(&cp), ch)
+		return one(st, p)
+	}
+	models["(*time.Timer).Stop"] = func(e *Exec, st *State, fr *Frame, fn *ssa.Function, args []Value, pos token.Pos) []Outcome {
+		return one(st, Fresh("stopped", SBool))
+	}
+	models["math/rand.Uint32"] = pureOpaque("rand.Uint32")
 }
